@@ -3,6 +3,7 @@
 package weshnet
 
 import (
+	"bytes"
 	"context"
 	crand "crypto/rand"
 	"fmt"
@@ -590,6 +591,29 @@ func TestVerif_C19_ListingRPCs(t *testing.T) {
 			r = w.call("AppMetadataSend", &protocoltypes.AppMetadataSend_Request{GroupPk: gpk, Payload: []byte(fmt.Sprintf("d%d", i))})
 			if !r.errored && r.reply != nil {
 				metaIDs = append(metaIDs, r.reply.(*protocoltypes.AppMetadataSend_Reply).Cid)
+			}
+		}
+		// the inspection requests on a group this account created (its metadata log starts with the owner's announcement,
+		// the only event type that names no device) and on the account group
+		acfg := w.call("ServiceGetConfiguration", &protocoltypes.ServiceGetConfiguration_Request{})
+		inspected := [][]byte{gpk}
+		if cfg, ok := acfg.reply.(*protocoltypes.ServiceGetConfiguration_Reply); ok && cfg != nil {
+			inspected = append(inspected, cfg.AccountGroupPk)
+		}
+		for _, pk := range inspected {
+			for lt := int32(0); lt <= 3; lt++ {
+				r := w.call("DebugInspectGroupStore", &protocoltypes.DebugInspectGroupStore_Request{GroupPk: pk, LogType: protocoltypes.DebugInspectGroupLogType(lt)})
+				acct.Case(lt == 2, fmt.Sprintf("inspect|%d|%d|%v", n, lt, bytes.Equal(pk, gpk)), func() any {
+					return map[string]any{"kind": "inspect-rpc", "entries": n, "log_type": lt, "created_group": bytes.Equal(pk, gpk)}
+				}, "listing-rpc", "listing-rpc/inspect-own-groups")
+				if r.panicked {
+					acct.Violation(fmt.Sprintf("panic/DebugInspectGroupStore/%s", r.site), "TestVerif_C19_ListingRPCs", map[string]any{"method": "DebugInspectGroupStore", "log_type": lt, "created_group": bytes.Equal(pk, gpk), "panic": r.panicMsg, "site": r.site})
+					rt.Fatalf("C19: DebugInspectGroupStore(log type %d, created group %v) panicked at %s: %s", lt, bytes.Equal(pk, gpk), r.site, r.panicMsg)
+				}
+			}
+			if r := w.call("DebugGroup", &protocoltypes.DebugGroup_Request{GroupPk: pk}); r.panicked {
+				acct.Violation(fmt.Sprintf("panic/DebugGroup/%s", r.site), "TestVerif_C19_ListingRPCs", map[string]any{"method": "DebugGroup", "panic": r.panicMsg, "site": r.site})
+				rt.Fatalf("C19: DebugGroup panicked at %s: %s", r.site, r.panicMsg)
 			}
 		}
 		junk := [][]byte{nil, {}, []byte("not-a-cid"), cid.NewCidV1(cid.Raw, []byte("\x12\x20aaaaaaaaaaaaaaaaaaaaaaaaaaaaaaaa")).Bytes()}
